@@ -22,6 +22,7 @@ func checkC13(c *Ctx) {
 	c.Rule("C13/R3", "benchmath.Sample is constructed only by NewSample, which sorts the slice it stores; stats.Sample{Sorted:true} is built only from Sample.Values")
 	c.Rule("C13/R4", "process-wide memo tables are keyed by every input of the memoised call, verbatim")
 	c.Rule("C13/R5", "rendering tables (DESIGN Appendix A4): FormatDelta — P>Alpha '~', equal '0.00%', old=0 '?', else (new/old-1)*100 with %+.2f%%; PctRangeString — infinite end '∞', sign mismatch '?', zero centre '0%', else the larger relative deviation of the interval ends from the centre, in percent")
+	c.Rule("C13/R7", "scale invariance by dimensions: on the way from every Assumption.Compare (benchmath; the tests themselves live in the external go-moremath module) no quantity that carries the unit of the measurements (a value, mean, deviation, variance, quantile, or a product/quotient of them that does not cancel) is compared with a non-zero constant")
 	c.Rule("C13/R6", "summary wiring: the assume-nothing summary uses the median interval for (len(values), requested confidence) and reports the interval's own confidence; the normal summary reports the mean interval at the requested confidence; the exact summary's bounds are the first and last sorted values and it warns exactly when the mode count differs from the sample size")
 
 	p := mustLoad(c, loadOpts{}, "./benchmath", "./benchfmt", "./cmd/benchstat/...")
@@ -31,6 +32,7 @@ func checkC13(c *Ctx) {
 	c.Floor("C13/R4", "memo stores in benchmath", n, 1)
 	c13Render(c, p)
 	c13Summary(c, p)
+	c13Scale(c, p)
 	if c.Tier == "thorough" {
 		p2 := mustLoad(c, loadOpts{}, "./...")
 		var rels []string
@@ -635,4 +637,222 @@ func c13Summary(c *Ctx, p *Prog) {
 		})
 		c.Check(okW, R, "assumeExact.Summary:warning", site, "warns exactly when the mode count differs from the sample size", "the range warning is not guarded by (mode count != number of values)")
 	}
+}
+
+// c13Scale (C13/R7): dimensional analysis of the comparison path. A p-value that is invariant under a common positive
+// rescaling cannot depend on a test of a dimensioned quantity against an absolute constant other than zero.
+func c13Scale(c *Ctx, p *Prog) {
+	const R = "C13/R7"
+	var roots []*ssa.Function
+	for _, fn := range p.Funcs("benchmath") {
+		if fn.Name() == "Compare" && fn.Signature.Recv() != nil {
+			roots = append(roots, fn)
+		}
+	}
+	if len(roots) < 3 {
+		c.Undecided(R, "anchor:Compare", "", "fewer than three Compare methods found in benchmath")
+		return
+	}
+	reach := staticReach(roots, bmathPkg)
+	methodDim := map[string]int{"Mean": 1, "StdDev": 1, "Variance": 2, "GeoMean": 1, "Percentile": 1, "Quantile": 1, "IQR": 1, "Bounds": 1, "MeanCI": 1, "Sum": 1, "Weight": 0}
+	isSampleT := func(t types.Type) bool {
+		n := recvName(t)
+		return n == "Sample"
+	}
+	var dim func(v ssa.Value, depth int) (int, bool, bool) // (dimension, known, isConst)
+	dim = func(v ssa.Value, depth int) (int, bool, bool) {
+		if depth > 12 {
+			return 0, false, false
+		}
+		switch x := v.(type) {
+		case *ssa.Const:
+			return 0, true, true
+		case *ssa.Convert:
+			return dim(x.X, depth+1)
+		case *ssa.ChangeType:
+			return dim(x.X, depth+1)
+		case *ssa.UnOp:
+			switch x.Op {
+			case token.SUB:
+				return dim(x.X, depth+1)
+			case token.MUL:
+				if ia, ok := x.X.(*ssa.IndexAddr); ok && measurementSlice(ia.X, 0) {
+					return 1, true, false
+				}
+			}
+		case *ssa.Extract:
+			if call, ok := x.Tuple.(*ssa.Call); ok {
+				if f := calleeObj(&call.Call); f != nil {
+					if sig := f.Type().(*types.Signature); sig.Recv() != nil && isSampleT(sig.Recv().Type()) {
+						if d, ok := methodDim[f.Name()]; ok && isFloat(x.Type()) {
+							return d, true, false
+						}
+					}
+				}
+			}
+		case *ssa.Call:
+			f := calleeObj(&x.Call)
+			if f == nil {
+				return 0, false, false
+			}
+			sig := f.Type().(*types.Signature)
+			if sig.Recv() != nil && isSampleT(sig.Recv().Type()) && isFloat(x.Type()) {
+				if d, ok := methodDim[f.Name()]; ok {
+					return d, true, false
+				}
+			}
+			if f.Pkg() != nil && f.Pkg().Path() == "math" && len(x.Call.Args) >= 1 {
+				switch f.Name() {
+				case "Abs", "Floor", "Ceil", "Round", "Trunc":
+					return dim(x.Call.Args[0], depth+1)
+				case "Max", "Min":
+					d1, k1, c1 := dim(x.Call.Args[0], depth+1)
+					d2, k2, c2 := dim(x.Call.Args[1], depth+1)
+					switch {
+					case k1 && c1:
+						return d2, k2, c2
+					case k2 && c2:
+						return d1, k1, false
+					case k1 && k2 && d1 == d2:
+						return d1, true, false
+					}
+				case "Sqrt":
+					if d, k, cst := dim(x.Call.Args[0], depth+1); k && d%2 == 0 {
+						return d / 2, true, cst
+					}
+				}
+			}
+		case *ssa.BinOp:
+			d1, k1, c1 := dim(x.X, depth+1)
+			d2, k2, c2 := dim(x.Y, depth+1)
+			switch x.Op {
+			case token.ADD, token.SUB:
+				switch {
+				case k1 && c1 && k2:
+					return d2, true, c2
+				case k2 && c2 && k1:
+					return d1, true, false
+				case k1 && k2 && d1 == d2:
+					return d1, true, false
+				}
+			case token.MUL:
+				if k1 && k2 {
+					return d1 + d2, true, c1 && c2
+				}
+			case token.QUO:
+				if k1 && k2 {
+					return d1 - d2, true, c1 && c2
+				}
+			}
+		case *ssa.Phi:
+			d0, have := 0, false
+			for _, e := range x.Edges {
+				if e == ssa.Value(x) {
+					continue
+				}
+				d, k, cst := dim(e, depth+4)
+				if !k {
+					return 0, false, false
+				}
+				if cst {
+					continue
+				}
+				if have && d != d0 {
+					return 0, false, false
+				}
+				d0, have = d, true
+			}
+			if have {
+				return d0, true, false
+			}
+		}
+		return 0, false, false
+	}
+	type finding struct {
+		fn   *ssa.Function
+		k    int
+		pos  token.Pos
+		d    int
+		k0   *ssa.Const
+		zero bool
+	}
+	scan := func(fns []*ssa.Function) (n int, fs []finding) {
+		for _, fn := range fns {
+			k := 0
+			eachInstr(fn, func(_ *ssa.BasicBlock, in ssa.Instruction) {
+				bo, ok := in.(*ssa.BinOp)
+				if !ok || !isFloat(bo.X.Type()) {
+					return
+				}
+				switch bo.Op {
+				case token.LSS, token.GTR, token.LEQ, token.GEQ, token.EQL, token.NEQ:
+				default:
+					return
+				}
+				n++
+				var other ssa.Value
+				var k0 *ssa.Const
+				if cx, ok := bo.X.(*ssa.Const); ok {
+					k0, other = cx, bo.Y
+				} else if cy, ok := bo.Y.(*ssa.Const); ok {
+					k0, other = cy, bo.X
+				}
+				if k0 == nil || k0.Value == nil {
+					return
+				}
+				d, known, cst := dim(other, 0)
+				if !known || cst {
+					return
+				}
+				k++
+				fs = append(fs, finding{fn, k, bo.Pos(), d, k0, constant.Sign(k0.Value) == 0})
+			})
+		}
+		return
+	}
+	c.Note("C13/R7 analyses %d functions reachable from %d Compare methods", len(reach), len(roots))
+	n, fs := scan(reach)
+	for _, f := range fs {
+		key := fmt.Sprintf("scale:%s#%d", fnName(f.fn), f.k)
+		c.Check(f.d == 0 || f.zero, R, key, p.pos(f.pos), fmt.Sprintf("dimension %d compared with %s", f.d, f.k0.Value), fmt.Sprintf("a quantity carrying the unit of the measurements to the power %d is compared with the absolute constant %s: multiplying both samples by a common positive factor changes the outcome of this test, so the comparison (p-value, warnings, whether a delta is shown) is not invariant under rescaling, e.g. under a change of unit", f.d, f.k0.Value))
+	}
+	c.OK(R, "scale:comparison-path", "", fmt.Sprintf("%d functions, %d float comparisons, %d of a dimensioned quantity with a constant", len(reach), n, len(fs)))
+	c.Floor(R, "functions on the comparison path", len(reach), 5)
+	// positive control: the matcher must see the stored absolute guard
+	ctl := mustLoad(c, loadOpts{dir: c.HomeDir + "/checker"}, "./testdata/lookbehind")
+	nCtl := 0
+	_, cf := scan(ctl.Funcs("perfcheck/testdata/lookbehind"))
+	for _, f := range cf {
+		if f.d != 0 && !f.zero {
+			nCtl++
+		}
+	}
+	if nCtl == 0 {
+		c.Undecided(R, "positive-control", "", "the dimension matcher no longer recognises its own positive example")
+	} else {
+		c.OK(R, "positive-control", "checker/testdata/lookbehind/lb.go", "matcher fires on the stored absolute spread guard")
+	}
+}
+
+// measurementSlice: v is the slice of measurements of a sample (field Values of benchmath.Sample, Xs of stats.Sample),
+// possibly re-sliced.
+func measurementSlice(v ssa.Value, depth int) bool {
+	if depth > 6 {
+		return false
+	}
+	switch x := v.(type) {
+	case *ssa.Slice:
+		return measurementSlice(x.X, depth+1)
+	case *ssa.UnOp:
+		if x.Op == token.MUL {
+			if fa, ok := x.X.(*ssa.FieldAddr); ok {
+				f, _ := fieldOfAddr(fa)
+				return f != nil && (f.Name() == "Values" || f.Name() == "Xs") && recvName(fa.X.Type()) == "Sample"
+			}
+		}
+	case *ssa.Field:
+		f, _ := fieldOfVal(x)
+		return f != nil && (f.Name() == "Values" || f.Name() == "Xs") && recvName(x.X.Type()) == "Sample"
+	}
+	return false
 }
